@@ -1,13 +1,33 @@
 #!/bin/bash
-# Builds the framework offline from files on disk: Lean model/theorems/driver and the Rust harness crates.
-set -e
+# Builds the framework offline from files on disk: Lean model/theorems/driver, the Rust harness crates
+# (all feature variants) and the dependencies of the probe crates.  Everything is rebuilt incrementally by the
+# checks themselves; this only warms the caches.
+set -u
 cd "$(dirname "$0")"
 export CARGO_NET_OFFLINE=true
-(cd lean && lake build I18nVerif i18n-model)
-for c in harness/*/; do
-  if [ -f "$c/Cargo.toml" ]; then
-    [ -f "$c/Cargo.lock" ] || cp /repo/Cargo.lock "$c/Cargo.lock"
-    (cd "$c" && cargo build --offline --release --target-dir /verif/harness/target) || echo "setup: $c did not build (reported by the checks that use it)"
-  fi
-done
+(cd lean && lake build I18nVerif i18n-model) || { echo "setup: lake build failed"; exit 1; }
+T=/verif/harness/target
+b() { # crate [target-suffix] [cargo args...]
+  local c=$1; shift; local suf=$1; shift
+  [ -f "harness/$c/Cargo.lock" ] || cp /repo/Cargo.lock "harness/$c/Cargo.lock"
+  (cd "harness/$c" && cargo build --offline --release --target-dir "$T$suf" "$@") || echo "setup: harness $c did not build (reported by the checks that use it)"
+}
+b parser_h ""
+b parser_h "-yaml" --no-default-features --features yaml
+b parser_h "-json5" --no-default-features --features json5
+b parser_h "-json-suppress" --no-default-features --features json,suppress
+for c in codegen_h runtime_h router_h ctx_h runtime_dyn_h build_h locale_h fmt_h; do b $c ""; done
+# probe crates: compile the dependency graph of a generated user crate once
+python3 - <<'PY'
+import sys
+sys.path.insert(0, "/verif")
+from vlib.common import Ctx
+from vlib import probe
+ctx = Ctx("SETUP", "quick", 1)
+try:
+    probe.run_render_probe(ctx, ctx.rng, n_crates=1, flavours=("string",), per_key=1)
+    print("setup: probe crate warm-up done", ctx.dist)
+except Exception as e:
+    print("setup: probe warm-up failed:", e)
+PY
 echo setup done
